@@ -31,7 +31,30 @@ def vtk_txt_subregions_precision(v):
     )
 
 
+def mesh_copy_transform_revalidation(v):
+    """F29: the copying forms of Mesh.scale/translate/rotate90 (and Field.rotate90)
+    rebuild the mesh through the constructor, which re-validates the separately
+    transformed subregions with the region's 1e-12 comparison tolerance; once the
+    rounding error accumulated by the history (magnified by large factors about
+    far-away points) is no longer small against that tolerance the call raises
+    although the in-place form succeeds.  Only this mechanism: copy form, subregion
+    re-validation error, and the workload's own rounding-error bound for the history
+    is at least 2 % of the region's comparison tolerance (below that bound a failure
+    is a different defect and is reported)."""
+    i = _info(v)
+    w = i.get("what") if isinstance(i.get("what"), dict) else {}
+    return (
+        v.get("monitor") == "C13.step_accepted"
+        and w.get("form") == "copy"
+        and w.get("object") in ("mesh", "field")
+        and "Subregion" in str(i.get("exc", ""))
+        and isinstance(w.get("cond_region"), (int, float))
+        and w["cond_region"] >= 0.02
+    )
+
+
 PREDICATES = {
+    "mesh_copy_transform_revalidation": mesh_copy_transform_revalidation,
     "vtk_txt_subregions_precision": vtk_txt_subregions_precision,
 }
 
